@@ -35,3 +35,11 @@ prop("C18", [ker.ker_argmax, ker.ker_discrete], "kernel agreement: arg-max primi
 prop("C20", [ker.ker_logsumexp], "kernel agreement: log-sum-exp forms")
 prop("C15", [ker.ker_interp], "kernel agreement: interpolation kernel and coordinates")
 prop("C02", [ker.ker_argmax, ker.ker_simulate], "kernel agreement")
+
+from lcmsa import rules_bellman as bel  # noqa: E402
+
+PROPERTIES["C01"]["rules"] += [bel.bellman_form, bel.masked_reduction, bel.twins, ker.ker_discrete]
+prop("C11", [bel.bellman_form, per.per_rules], "discounting structure")
+PROPERTIES["C06"]["rules"] += [bel.twins, bel.masked_reduction]
+PROPERTIES["C02"]["rules"] += [bel.masked_reduction, bel.twins]
+prop("C14", [ker.ker_interp], "kernel")
